@@ -9,9 +9,13 @@
   `Wire.writeInt`; an exception is the error state, which every later call leaves as it is) and says that the procedure then produces exactly
   `Wire.kexWrite` of the message — the function the KEXINIT round-trip theorems of C10 (`kex_rt`, `kex_reencode`) are about.  Two fields swapped, one written twice or one
   left out in the source, and the theorem no longer checks.
+
+  The second half does the same for `SSH2_Kex.parse` (the thirteen reads from `cookie = buf.read(16)` to `unused = buf.read_int()`; the objects built from
+  the locals afterwards are outside the selection) against `Wire.kexParse`, and composes the two regenerated procedures (`regenerated_kexinit_roundtrip`).
 -/
 import SshAudit.Gen.Logic6
 import SshAudit.Model.Wire
+import SshAudit.Props.C10
 namespace SshAudit.GenLogic
 open SshAudit
 
@@ -75,5 +79,105 @@ example : (Gen.Logic.kex_write xWrite (xWriteList (fun s => s.map (fun c => UInt
       [1, 2] ["a".toList, "bc".toList] [] [] [] [] [] [] [] [] [] true 7).2
     = .ok [1, 2, 0, 0, 0, 4, 97, 44, 98, 99, 0, 0, 0, 0, 0, 0, 0, 0, 0, 0, 0, 0, 0, 0, 0, 0, 0, 0, 0, 0, 0, 0, 0, 0, 0, 0, 0, 0, 0, 0, 0, 0, 0, 0, 0, 0, 1, 0, 0, 0, 7] := by
   decide
+
+/-! ### `SSH2_Kex.parse` -/
+
+/-- the model's reading state: the unread bytes, or the exception that was raised -/
+abbrev R := Except Exn Bytes
+
+/-- `buf.read(n)` (clamps; `n` is the literal 16 here) -/
+def xRead (st : R) (n : Int) : Bytes × R :=
+  match st with
+  | .ok bs => ((Wire.read n.toNat bs).1, .ok (Wire.read n.toNat bs).2)
+  | .error e => ([], .error e)
+/-- `buf.read_list()`: the names, each decoded by `dec` -/
+def xReadList (dec : Bytes → Str) (st : R) : List Str × R :=
+  match st with
+  | .ok bs => (match Wire.readList bs with
+      | .ok (l, r) => (l.map dec, .ok r)
+      | .error e => ([], .error e))
+  | .error e => ([], .error e)
+/-- `buf.read_bool()` -/
+def xReadBool (st : R) : Bool × R :=
+  match st with
+  | .ok bs => (match Wire.readBool bs with
+      | .ok (b, r) => (b, .ok r)
+      | .error e => (false, .error e))
+  | .error e => (false, .error e)
+/-- `buf.read_int()` -/
+def xReadInt (st : R) : Int × R :=
+  match st with
+  | .ok bs => (match Wire.readInt bs with
+      | .ok (v, r) => ((v : Int), .ok r)
+      | .error e => (0, .error e))
+  | .error e => (0, .error e)
+
+/-- `SSH2_Kex.parse` as regenerated, run on the model's readers, against `Wire.kexParse`: when the model parses the payload, the thirteen locals
+    are the model's fields in the model's order (names decoded one by one) and no exception was raised; when the model raises, so does the
+    procedure (the state it ends in is that exception) -/
+theorem kex_parse_eq_model (dec : Bytes → Str) (bs : Bytes) :
+    match Wire.kexParse bs with
+    | .ok k => ∃ rest, Gen.Logic.kex_parse xRead (xReadList dec) xReadBool xReadInt (.ok bs)
+        = (some (k.cookie, k.kex.map dec, k.key.map dec, k.encC.map dec, k.encS.map dec, k.macC.map dec, k.macS.map dec,
+                 k.compC.map dec, k.compS.map dec, k.langC.map dec, k.langS.map dec, k.follows, (k.unused : Int)), .ok rest)
+    | .error e => (Gen.Logic.kex_parse xRead (xReadList dec) xReadBool xReadInt (.ok bs)).2 = .error e := by
+  unfold Wire.kexParse Gen.Logic.kex_parse
+  have h16 : (16 : Int).toNat = 16 := rfl
+  simp only [xRead, Wire.read, h16]
+  rcases h1 : Wire.readList (List.drop 16 bs) with e | ⟨l1, r1⟩
+  · simp [xReadList, xReadBool, xReadInt, h1, bind, Except.bind]
+  rcases h2 : Wire.readList r1 with e | ⟨l2, r2⟩
+  · simp [xReadList, xReadBool, xReadInt, h1, h2, bind, Except.bind]
+  rcases h3 : Wire.readList r2 with e | ⟨l3, r3⟩
+  · simp [xReadList, xReadBool, xReadInt, h1, h2, h3, bind, Except.bind]
+  rcases h4 : Wire.readList r3 with e | ⟨l4, r4⟩
+  · simp [xReadList, xReadBool, xReadInt, h1, h2, h3, h4, bind, Except.bind]
+  rcases h5 : Wire.readList r4 with e | ⟨l5, r5⟩
+  · simp [xReadList, xReadBool, xReadInt, h1, h2, h3, h4, h5, bind, Except.bind]
+  rcases h6 : Wire.readList r5 with e | ⟨l6, r6⟩
+  · simp [xReadList, xReadBool, xReadInt, h1, h2, h3, h4, h5, h6, bind, Except.bind]
+  rcases h7 : Wire.readList r6 with e | ⟨l7, r7⟩
+  · simp [xReadList, xReadBool, xReadInt, h1, h2, h3, h4, h5, h6, h7, bind, Except.bind]
+  rcases h8 : Wire.readList r7 with e | ⟨l8, r8⟩
+  · simp [xReadList, xReadBool, xReadInt, h1, h2, h3, h4, h5, h6, h7, h8, bind, Except.bind]
+  rcases h9 : Wire.readList r8 with e | ⟨l9, r9⟩
+  · simp [xReadList, xReadBool, xReadInt, h1, h2, h3, h4, h5, h6, h7, h8, h9, bind, Except.bind]
+  rcases h10 : Wire.readList r9 with e | ⟨l10, r10⟩
+  · simp [xReadList, xReadBool, xReadInt, h1, h2, h3, h4, h5, h6, h7, h8, h9, h10, bind, Except.bind]
+  rcases h11 : Wire.readBool r10 with e | ⟨b, r11⟩
+  · simp [xReadList, xReadBool, xReadInt, h1, h2, h3, h4, h5, h6, h7, h8, h9, h10, h11, bind, Except.bind]
+  rcases h12 : Wire.readInt r11 with e | ⟨u, r12⟩
+  · simp [xReadList, xReadBool, xReadInt, h1, h2, h3, h4, h5, h6, h7, h8, h9, h10, h11, h12, bind, Except.bind]
+  simp [xReadList, xReadBool, xReadInt, h1, h2, h3, h4, h5, h6, h7, h8, h9, h10, h11, h12, bind, Except.bind, pure, Except.pure]
+
+/-- writer and reader of the KEXINIT message as they stand in the source today, composed: a well-formed message (16-byte cookie, non-empty lists of
+    comma-free names, `dec ∘ enc = id` on names, `unused` a 32-bit value that the writer accepts) written by the regenerated `SSH2_Kex.write` is read
+    back field by field by the regenerated `SSH2_Kex.parse` -/
+theorem regenerated_kexinit_roundtrip (enc : Str → Bytes) (dec : Bytes → Str) (hde : ∀ s, dec (enc s) = s)
+    (cookie : Bytes) (kex key encC encS macC macS compC compS langC langS : List Str) (follows : Bool) (unused : Nat) (bs : Bytes)
+    (hwf : C10.KexWF { cookie := cookie, kex := kex.map enc, key := key.map enc, encC := encC.map enc, encS := encS.map enc,
+                       macC := macC.map enc, macS := macS.map enc, compC := compC.map enc, compS := compS.map enc,
+                       langC := langC.map enc, langS := langS.map enc, follows := follows, unused := unused })
+    (hw : (Gen.Logic.kex_write xWrite (xWriteList enc) xWriteBool xWriteInt (.ok []) cookie kex key encC encS macC macS compC compS langC langS
+            follows (unused : Int)).2 = .ok bs) :
+    ∃ rest, Gen.Logic.kex_parse xRead (xReadList dec) xReadBool xReadInt (.ok bs)
+      = (some (cookie, kex, key, encC, encS, macC, macS, compC, compS, langC, langS, follows, (unused : Int)), .ok rest) := by
+  rw [kex_write_eq_model] at hw
+  have hp := C10.kexinit_rt _ bs hwf hw
+  have h := kex_parse_eq_model dec bs
+  rw [hp] at h
+  have hm : ∀ l : List Str, (l.map enc).map dec = l := by
+    intro l; rw [List.map_map]; conv => rhs; rw [← List.map_id l]
+    apply List.map_congr_left; intro s _; exact hde s
+  simpa only [hm] using h
+
+/-- the hypotheses are met: a concrete message goes through the regenerated writer and comes back through the regenerated reader -/
+example : ∃ bs, (Gen.Logic.kex_write xWrite (xWriteList (fun s => s.map (fun c => UInt8.ofNat c.toNat))) xWriteBool xWriteInt (.ok [])
+        (List.replicate 16 7) ["a".toList, "bc".toList] ["k".toList] ["e".toList] ["f".toList] ["m".toList] ["n".toList] ["none".toList] ["zlib".toList]
+        ["".toList] ["".toList] true 9).2 = .ok bs
+      ∧ (Gen.Logic.kex_parse xRead (xReadList (fun b => b.map (fun x => Char.ofNat x.toNat))) xReadBool xReadInt (.ok bs)).1
+        = some (List.replicate 16 7, ["a".toList, "bc".toList], ["k".toList], ["e".toList], ["f".toList], ["m".toList], ["n".toList], ["none".toList],
+                ["zlib".toList], ["".toList], ["".toList], true, 9) :=
+  ⟨_, rfl, rfl⟩
 
 end SshAudit.GenLogic
